@@ -14,13 +14,13 @@ from ..harness import Result, Violation, clip, parallel, seed
 FUNC_OF_OP = {
     "add": "Node.add_child", "append_child": "Node.append_child", "prepend_child": "Node.prepend_child",
     "prepend_sibling": "Node.prepend_sibling", "append_sibling": "Node.append_sibling",
-    "addnode": "Node.add_child(node)", "addnode_x": "Node.add_child(node)", "addtree": "Node.add_child(tree)", "addself": "Node.add_child(tree)",
+    "addnode": "Node.add_child(node)", "addnode_x": "Node.add_child(node)", "addtree": "Node.add_child(tree)", "addtree_nc": "Node.add_child(tree)", "shortcut_tree": "Node.append_child / prepend_child / prepend_sibling / append_sibling (tree)", "addself": "Node.add_child(tree)",
     "copy_to": "Node.copy_to", "tree_copy_to": "Tree.copy_to",
     "move": "Node.move_to", "move_x": "Node.move_to", "remove": "Node.remove", "remove_children": "Node.remove_children",
     "clear": "Tree.clear", "del": "Tree.__delitem__", "sort": "Node.sort_children", "set_data": "Node.set_data",
     "rename": "Node.rename", "set_meta": "Node.set_meta", "clear_meta": "Node.clear_meta", "update_meta": "Node.update_meta",
 }
-COPY_OPS = {"addnode", "addnode_x", "addtree", "addself", "copy_to", "tree_copy_to"}
+COPY_OPS = {"addnode", "addnode_x", "addtree", "addtree_nc", "shortcut_tree", "addself", "copy_to", "tree_copy_to"}
 
 
 def props_of(op, clause: str, text: str) -> set[str]:
@@ -34,7 +34,7 @@ def props_of(op, clause: str, text: str) -> set[str]:
             return {"C02"}
         return {"C01"}
     if clause == "effect":
-        if t in ("addtree", "tree_copy_to") and ": kind " not in text:
+        if t in ("addtree", "addtree_nc", "shortcut_tree", "tree_copy_to") and ": kind " not in text:
             return {"C04", "C07"}  # documented position (C04) in source order (C07); kinds of copies are C07 only
         return {"C07"} if t in COPY_OPS else {"C04"}
     if clause == "source.changed":
